@@ -174,6 +174,13 @@ pub enum Flavour {
     Tok,
     Cid,
     ZTok,
+    /// non-`Copy` element *without* drop glue (`mem::needs_drop` is false): unique instance ids,
+    /// but no drop accounting
+    Mov,
+    /// like Tok but 64 bytes large
+    Fat,
+    /// zero-sized `()` cells with giant shapes (dimension-only model, see giant.rs)
+    Giant,
 }
 
 pub trait Elem: Sized + Clone + Default + PartialEq + Eq + std::hash::Hash + std::fmt::Debug + Ord + 'static {
@@ -191,19 +198,120 @@ pub trait Elem: Sized + Clone + Default + PartialEq + Eq + std::hash::Hash + std
 }
 
 // ---------------------------------------------------------------------------------------------
-// Tok
+// Tok (16 bytes) and Fat (64 bytes): owning, ledgered elements. Two sizes, so that code paths
+// chosen by byte size (stack buffers, chunked copies) are reached with ordinary shapes.
+
+macro_rules! ledgered {
+    ($name:ident, $flavour:expr, $pad:expr) => {
+        #[repr(C)]
+        pub struct $name {
+            pub id: u64,
+            pub val: u32,
+            pub magic: u32,
+            pub pad: [u64; $pad],
+        }
+
+        impl Elem for $name {
+            const FLAVOUR: Flavour = $flavour;
+            fn mint(val: u32) -> $name {
+                $name { id: ledger_mint(val, Origin::Mint), val, magic: TOK_MAGIC, pad: [0x5A5A_5A5A_5A5A_5A5A; $pad] }
+            }
+            fn val(&self) -> u32 {
+                self.val
+            }
+            fn id(&self) -> u64 {
+                self.id
+            }
+            fn magic_ok(&self) -> bool {
+                self.magic == TOK_MAGIC && self.pad.iter().all(|&p| p == 0x5A5A_5A5A_5A5A_5A5A)
+            }
+        }
+
+        impl Clone for $name {
+            fn clone(&self) -> $name {
+                tick(K_CLONE);
+                $name { id: ledger_mint(self.val, Origin::Clone), val: self.val, magic: TOK_MAGIC, pad: [0x5A5A_5A5A_5A5A_5A5A; $pad] }
+            }
+        }
+
+        impl Default for $name {
+            fn default() -> $name {
+                tick(K_DEFAULT);
+                let val = fresh_val();
+                $name { id: ledger_mint(val, Origin::Default), val, magic: TOK_MAGIC, pad: [0x5A5A_5A5A_5A5A_5A5A; $pad] }
+            }
+        }
+
+        impl Drop for $name {
+            fn drop(&mut self) {
+                // Record first (the value *is* dropped), never panic here except for the injected fault.
+                let (id, magic, val) = (self.id, self.magic, self.val);
+                let pad_ok = self.pad.iter().all(|&p| p == 0x5A5A_5A5A_5A5A_5A5A);
+                with_ledger(|l| {
+                    if magic != TOK_MAGIC || !pad_ok {
+                        l.violations.push(format!("drop of a garbage element (id={:#x} val={:#x} magic={:#x})", id, val, magic));
+                    } else if id == 0 || id as usize > l.entries.len() {
+                        l.violations.push(format!("drop of a never-minted id {}", id));
+                    } else {
+                        let e = &mut l.entries[id as usize - 1];
+                        e.drops += 1;
+                        if e.drops > 1 {
+                            let msg = format!("element id={} val={} dropped {} times", id, e.val, e.drops);
+                            l.violations.push(msg);
+                        }
+                    }
+                });
+                tick(K_DROP);
+            }
+        }
+
+        impl PartialEq for $name {
+            fn eq(&self, o: &$name) -> bool {
+                self.val == o.val
+            }
+        }
+        impl Eq for $name {}
+        impl std::hash::Hash for $name {
+            fn hash<H: std::hash::Hasher>(&self, h: &mut H) {
+                self.val.hash(h)
+            }
+        }
+        impl PartialOrd for $name {
+            fn partial_cmp(&self, o: &$name) -> Option<Ordering> {
+                Some(self.cmp(o))
+            }
+        }
+        impl Ord for $name {
+            fn cmp(&self, o: &$name) -> Ordering {
+                tick(K_CMP);
+                self.val.cmp(&o.val)
+            }
+        }
+        impl std::fmt::Debug for $name {
+            fn fmt(&self, f: &mut std::fmt::Formatter<'_>) -> std::fmt::Result {
+                write!(f, "{}", self.val)
+            }
+        }
+    };
+}
+
+ledgered!(Tok, Flavour::Tok, 0);
+ledgered!(Fat, Flavour::Fat, 6);
+
+// ---------------------------------------------------------------------------------------------
+// Mov: a move-only handle without a destructor (stands for `&mut T`, unique tokens, ...)
 
 #[repr(C)]
-pub struct Tok {
+pub struct Mov {
     pub id: u64,
     pub val: u32,
     pub magic: u32,
 }
 
-impl Elem for Tok {
-    const FLAVOUR: Flavour = Flavour::Tok;
-    fn mint(val: u32) -> Tok {
-        Tok { id: ledger_mint(val, Origin::Mint), val, magic: TOK_MAGIC }
+impl Elem for Mov {
+    const FLAVOUR: Flavour = Flavour::Mov;
+    fn mint(val: u32) -> Mov {
+        Mov { id: ledger_mint(val, Origin::Mint), val, magic: TOK_MAGIC }
     }
     fn val(&self) -> u32 {
         self.val
@@ -215,67 +323,42 @@ impl Elem for Tok {
         self.magic == TOK_MAGIC
     }
 }
-
-impl Clone for Tok {
-    fn clone(&self) -> Tok {
+impl Clone for Mov {
+    fn clone(&self) -> Mov {
         tick(K_CLONE);
-        Tok { id: ledger_mint(self.val, Origin::Clone), val: self.val, magic: TOK_MAGIC }
+        Mov { id: ledger_mint(self.val, Origin::Clone), val: self.val, magic: TOK_MAGIC }
     }
 }
-
-impl Default for Tok {
-    fn default() -> Tok {
+impl Default for Mov {
+    fn default() -> Mov {
         tick(K_DEFAULT);
         let val = fresh_val();
-        Tok { id: ledger_mint(val, Origin::Default), val, magic: TOK_MAGIC }
+        Mov { id: ledger_mint(val, Origin::Default), val, magic: TOK_MAGIC }
     }
 }
-
-impl Drop for Tok {
-    fn drop(&mut self) {
-        // Record first (the value *is* dropped), never panic here except for the injected fault.
-        let (id, magic, val) = (self.id, self.magic, self.val);
-        with_ledger(|l| {
-            if magic != TOK_MAGIC {
-                l.violations.push(format!("drop of a garbage element (id={:#x} val={:#x} magic={:#x})", id, val, magic));
-            } else if id == 0 || id as usize > l.entries.len() {
-                l.violations.push(format!("drop of a never-minted id {}", id));
-            } else {
-                let e = &mut l.entries[id as usize - 1];
-                e.drops += 1;
-                if e.drops > 1 {
-                    let msg = format!("element id={} val={} dropped {} times", id, e.val, e.drops);
-                    l.violations.push(msg);
-                }
-            }
-        });
-        tick(K_DROP);
-    }
-}
-
-impl PartialEq for Tok {
-    fn eq(&self, o: &Tok) -> bool {
+impl PartialEq for Mov {
+    fn eq(&self, o: &Mov) -> bool {
         self.val == o.val
     }
 }
-impl Eq for Tok {}
-impl std::hash::Hash for Tok {
+impl Eq for Mov {}
+impl std::hash::Hash for Mov {
     fn hash<H: std::hash::Hasher>(&self, h: &mut H) {
         self.val.hash(h)
     }
 }
-impl PartialOrd for Tok {
-    fn partial_cmp(&self, o: &Tok) -> Option<Ordering> {
+impl PartialOrd for Mov {
+    fn partial_cmp(&self, o: &Mov) -> Option<Ordering> {
         Some(self.cmp(o))
     }
 }
-impl Ord for Tok {
-    fn cmp(&self, o: &Tok) -> Ordering {
+impl Ord for Mov {
+    fn cmp(&self, o: &Mov) -> Ordering {
         tick(K_CMP);
         self.val.cmp(&o.val)
     }
 }
-impl std::fmt::Debug for Tok {
+impl std::fmt::Debug for Mov {
     fn fmt(&self, f: &mut std::fmt::Formatter<'_>) -> std::fmt::Result {
         write!(f, "{}", self.val)
     }
